@@ -13,6 +13,20 @@ func (p *Parser[G]) String() string {
 	return ebnf(p.typeNodes[p.rootType])
 }
 
+// endsWithModifier reports whether the EBNF printed for n ends in one of the modifiers ? * + !.
+func endsWithModifier(n node) bool {
+	switch n := n.(type) {
+	case *capture:
+		return endsWithModifier(n.node)
+	case *group:
+		if n.mode != groupMatchOnce {
+			return true
+		}
+		return endsWithModifier(n.expr)
+	}
+	return false
+}
+
 // ebnfName returns the production name used for a Go type: its name with an upper-case initial.
 func ebnfName(t reflect.Type) string {
 	name := t.Name()
@@ -129,16 +143,22 @@ func buildEBNF(root bool, n node, seen map[node]bool, p *ebnfp, outp *[]*ebnfp) 
 		p.out += fmt.Sprintf("%q", n.s)
 
 	case *group:
-		if child, ok := n.expr.(*group); ok && child.mode == groupMatchOnce {
-			buildEBNF(false, child.expr, seen, p, outp)
-		} else if child, ok := n.expr.(*capture); ok {
+		inner := n.expr
+		if child, ok := inner.(*group); ok && child.mode == groupMatchOnce {
+			inner = child.expr
+		} else if child, ok := inner.(*capture); ok {
 			if grandchild, ok := child.node.(*group); ok && grandchild.mode == groupMatchOnce {
-				buildEBNF(false, grandchild.expr, seen, p, outp)
-			} else {
-				buildEBNF(false, n.expr, seen, p, outp)
+				inner = grandchild.expr
 			}
-		} else {
-			buildEBNF(false, n.expr, seen, p, outp)
+		}
+		// A modifier cannot directly follow another modifier: ("a"+)? must not be printed as "a"+?.
+		nested := n.mode != groupMatchOnce && endsWithModifier(inner)
+		if nested {
+			p.out += "("
+		}
+		buildEBNF(false, inner, seen, p, outp)
+		if nested {
+			p.out += ")"
 		}
 		switch n.mode {
 		case groupMatchNonEmpty:
